@@ -661,6 +661,89 @@ func init() {
 		return nil
 	})
 	reg("sort.SliceStable", intrinsicsAlias("sort.Slice"))
+	// sync.Map as a deterministic association map (sequential semantics)
+	smap := func(e *Exec, recv Value) *MapV {
+		k, _ := concKey(recv)
+		m := e.syncMaps[k]
+		if m == nil {
+			m = newMap(nil)
+			e.syncMaps[k] = m
+		}
+		return m
+	}
+	reg("(*sync.Map).Load", func(e *Exec, _ *frame, a []Value) Value {
+		en := e.mapFind(smap(e, a[0]), a[1])
+		if en == nil {
+			return Tuple{Iface{}, e.tb.Bool(false)}
+		}
+		return Tuple{en.v, e.tb.Bool(true)}
+	})
+	reg("(*sync.Map).Store", func(e *Exec, _ *frame, a []Value) Value {
+		e.mapUpdate(smap(e, a[0]), a[1], a[2])
+		return nil
+	})
+	reg("(*sync.Map).LoadOrStore", func(e *Exec, _ *frame, a []Value) Value {
+		m := smap(e, a[0])
+		if en := e.mapFind(m, a[1]); en != nil {
+			return Tuple{en.v, e.tb.Bool(true)}
+		}
+		e.mapUpdate(m, a[1], a[2])
+		return Tuple{a[2], e.tb.Bool(false)}
+	})
+	reg("(*sync.Map).Delete", func(e *Exec, _ *frame, a []Value) Value {
+		e.mapDelete(smap(e, a[0]), a[1])
+		return nil
+	})
+	reg("(*sync.Map).Range", func(e *Exec, c *frame, a []Value) Value {
+		it := e.rangeIter(smap(e, a[0]), nil)
+		for {
+			t := it.next(e).(Tuple)
+			if !e.concBool(t[0]) {
+				return nil
+			}
+			r := e.callFrom(c, a[1], []Value{t[1], t[2]})
+			if !e.decide(r.(*Term)) {
+				return nil
+			}
+		}
+	})
+	for _, n := range []string{"(*sync.Mutex).Lock", "(*sync.Mutex).Unlock", "(*sync.RWMutex).Lock", "(*sync.RWMutex).Unlock", "(*sync.RWMutex).RLock", "(*sync.RWMutex).RUnlock"} {
+		reg(n, func(e *Exec, _ *frame, a []Value) Value { return nil })
+	}
+	for _, ty := range []string{"Int32", "Int64", "Uint32", "Uint64", "Uintptr"} {
+		reg("sync/atomic.Add"+ty, func(e *Exec, _ *frame, a []Value) Value {
+			p := a[0].(*Value)
+			if p == nil {
+				e.fault("nil pointer dereference (atomic)")
+			}
+			v := e.tb.bvBin("bvadd", (*p).(*Term), a[1].(*Term))
+			*p = v
+			return v
+		})
+		reg("sync/atomic.Load"+ty, func(e *Exec, _ *frame, a []Value) Value {
+			p := a[0].(*Value)
+			if p == nil {
+				e.fault("nil pointer dereference (atomic)")
+			}
+			return *p
+		})
+		reg("sync/atomic.Store"+ty, func(e *Exec, _ *frame, a []Value) Value {
+			p := a[0].(*Value)
+			if p == nil {
+				e.fault("nil pointer dereference (atomic)")
+			}
+			*p = a[1]
+			return nil
+		})
+		reg("sync/atomic.CompareAndSwap"+ty, func(e *Exec, _ *frame, a []Value) Value {
+			p := a[0].(*Value)
+			if e.decide(e.tb.Eq((*p).(*Term), a[1].(*Term))) {
+				*p = a[2]
+				return e.tb.Bool(true)
+			}
+			return e.tb.Bool(false)
+		})
+	}
 	reg("runtime.Caller", func(e *Exec, _ *frame, a []Value) Value {
 		return Tuple{e.tb.BV(64, 0), "?", e.tb.BV(64, 0), e.tb.Bool(false)}
 	})
